@@ -146,6 +146,13 @@ def _file_iter(environ, ap, chunks):
     import io as _io
     import tempfile as _tf
     data = b"".join(chunks)
+    if ap["prod"] == "file" and ap.get("pipe"):
+        # a file-like object with a real descriptor that cannot seek (the read end of a pipe, a subprocess' stdout)
+        import os as _os
+        rfd, wfd = _os.pipe()
+        _os.write(wfd, data)
+        _os.close(wfd)
+        return environ["wsgi.file_wrapper"](_os.fdopen(rfd, "rb", 0))
     if ap["prod"] == "file":
         f = _tf.TemporaryFile(dir=drv.SCRATCH)
         f.write(data)
@@ -302,8 +309,14 @@ def c02(ctx):
         clchoice = rng.random()
         cl = NOCL if clchoice < 0.4 else produced if clchoice < 0.85 else rng.choice([0, 1, max(0, produced - 1), produced + 3])
         ap = {"status": status, "cl": cl, "prod": prod, "chunks": sizes, "off": off}
+        pipe = prod == "file" and 0 < total <= 60000 and not wk.get("nosendfile") and rng.random() < 0.3
         if dribble:
             ap["dribble"] = dribble
+        if pipe:
+            ap["pipe"], ap["off"] = True, 0
+            produced = total
+            if cl != NOCL:
+                ap["cl"] = cl = total
         x = rng.random()
         if x < 0.15:
             # the application fails at a chosen point (before / after start_response, before the first byte,
